@@ -16,9 +16,14 @@ Vocabulary (`Sched/LemmasC05.lean`), with `f := doistDo pool tock start limit fu
 * `f.cycles` counts completed `recur()`+`tick()` rounds; the loop runs one round before the first emptiness test.
 
 Clause (5c) ("never True for a doer that did not return a truthy value") is proved on the trace as
-`flag_true_is_justified`.  Its second disjunct (the DoDoer's own `self.done = self.recur()`) is stated weakly — "some
-earlier `recur` of the same id at the same tyme" — because the trace does not say which ids are DoDoers; for a leaf
-the sharp local facts are `return_flag_true_only_if_truthy` and the `*_sets_no_flag` lemmas.
+`flag_true_is_justified`: a `flag true` event either directly follows the doer's own `exit`/`exitEnd` (same id, same
+tyme), or the trace before it ends with `recur` of that id at that tyme followed by exactly the event list of one
+exception-free `runCycle` of a scheduler with that id (pool, tock, deque and doers list existentially quantified;
+started with empty `pr`/`gone`) whose resulting deque `c.pr` is empty — i.e. it is `resumeGroup`'s
+`ev i (.flag c.pr.isEmpty) now`, the DoDoer's `self.done = self.recur()` returning True.  The statement does not tie
+the existentially quantified deque to the DoDoer's actual run-time state at that point of the run (the proof does
+use the actual one); for a leaf the sharp local facts are `return_flag_true_only_if_truthy` and the
+`*_sets_no_flag` lemmas.
 -/
 namespace Hio.Sched
 variable {τ : Type}
@@ -229,20 +234,44 @@ theorem return_flag_true_only_if_truthy (i j : Id) (v : Option Bool) (now t : τ
 section trace
 variable [Add τ] [LE τ] [DecidableRel (α := τ) (· ≤ ·)] [OfNat τ 0] [BEq τ]
 
-/-- (5c) in the trace of a whole run every `done = True` assignment either directly follows the `exit`
+/-- (5c) in the trace of a whole run every `done = True` assignment `e` either directly follows the `exit`
 (`exitEnd` for a DoDoer) of the same doer at the same tyme — the doer finished on its own and returned a truthy
-value — or follows a `recur` of the same doer at the same tyme (a DoDoer's `self.done = self.recur()`) -/
+value — or is a DoDoer's `self.done = self.recur()`: what precedes `e` ends with the `recur` of the same doer at the
+same tyme followed by exactly the events `mid` of one complete cycle (`runCycle` returning no exception) of a
+scheduler with id `e.id` at `e.tyme`, started with an empty right-of-marker part, that ended with an empty deque -/
 theorem flag_true_is_justified (pool : List (Spec τ)) (tock start : τ) (limit : Option τ) (fuel : Nat)
     (specs : List (Spec τ)) (pre post : List (Ev τ)) (e : Ev τ)
     (h : (doistDo pool tock start limit fuel specs).evs = pre ++ e :: post) (hk : e.kind = .flag true) :
     (∃ pre' p, pre = pre' ++ [p] ∧ p.id = e.id ∧ p.tyme = e.tyme ∧ (p.kind = .exit ∨ p.kind = .exitEnd))
-    ∨ (∃ p ∈ pre, p.id = e.id ∧ p.tyme = e.tyme ∧ p.kind = .recur) :=
+    ∨ (∃ (pre1 mid : List (Ev τ)) (gpool : List (Spec τ)) (stock : τ) (deeds : List (RT τ)) (doers : List Id)
+        (un : List (RT τ)) (c : Cyc τ),
+        pre = pre1 ++ ev e.id .recur e.tyme :: mid
+        ∧ runCycle gpool e.tyme stock e.id deeds { doers := doers } = (mid, un, c, none) ∧ c.pr = []) :=
   doistDo_FJ pool tock start limit fuel specs pre e post h hk
+
+/-- the weaker reading used before: the second case in particular has an earlier `recur` of the same doer at the
+same tyme -/
+theorem flag_true_is_justified_weak (pool : List (Spec τ)) (tock start : τ) (limit : Option τ) (fuel : Nat)
+    (specs : List (Spec τ)) (pre post : List (Ev τ)) (e : Ev τ)
+    (h : (doistDo pool tock start limit fuel specs).evs = pre ++ e :: post) (hk : e.kind = .flag true) :
+    (∃ pre' p, pre = pre' ++ [p] ∧ p.id = e.id ∧ p.tyme = e.tyme ∧ (p.kind = .exit ∨ p.kind = .exitEnd))
+    ∨ (∃ p ∈ pre, p.id = e.id ∧ p.tyme = e.tyme ∧ p.kind = .recur) := by
+  rcases flag_true_is_justified pool tock start limit fuel specs pre post e h hk with h1 | ⟨pre1, mid, _, _, _, _, _, _, h1, _⟩
+  · exact Or.inl h1
+  · exact Or.inr ⟨ev e.id .recur e.tyme, by rw [h1]; simp, rfl, rfl, rfl⟩
 
 -- non-vacuity (test): the run of one doer that yields once and returns True has a `flag true` event, after its exit
 example : ((doistDo [] 1 0 none 5 [Spec.leaf 1 .ok [(⟨[], .yieldT none⟩ : Step Nat)]]).evs.map (fun e => (e.id, e.kind)))
     = [(1, .flag false), (1, .enter), (1, .recur), (1, .recur), (1, .clean), (1, .exit), (1, .flag true),
        (0, .stopBeg), (0, .stopEnd)] := by decide
+-- non-vacuity of the second case (test): a DoDoer (id 2, always = false) whose only kid returns at its first recur;
+-- the group's own `flag true` follows its `recur` and the events of its cycle, then it cleans up and the Doist
+-- assigns `flag true` again after `exitEnd`
+example : ((doistDo [] 1 0 none 5 [Spec.group 2 0 false [Spec.leaf 1 .ok ([] : List (Step Nat))] []]).evs.map
+      (fun e => (e.id, e.kind)))
+    = [(2, .flag false), (2, .enter), (1, .flag false), (1, .enter),
+       (2, .recur), (1, .recur), (1, .clean), (1, .exit), (1, .flag true), (2, .flag true),
+       (2, .clean), (2, .exit), (2, .exitEnd), (2, .flag true), (0, .stopBeg), (0, .stopEnd)] := by decide
 end trace
 
 end Hio.Sched
